@@ -1,5 +1,7 @@
 """C11 — pruning, ordering and re-searches never change the result (cache neutralised)."""
+import json
 import common as C
+import positions as P
 import searchcorr as S
 import boardcorr as B
 from props import searchprop as SP
@@ -60,9 +62,86 @@ def run(ctx):
                                                    case["fen"], " ".join(case["moves"]), ";".join(case["specs"]), C.ENGINE)})
                     violations.append({"replay": rp})
             cov["reference_values_compared"] = nref
+            # the driver's own reference negamax (plain recursion over the engine's board API) against the Coq value of the
+            # same cases: validates that reference, which the deep leg below relies on
+            rinp = "".join("%s | %s | %d\n" % (r["cases"][i]["fen"], " ".join(r["cases"][i]["moves"]), S.parse_spec(r["cases"][i]["specs"][0])[0]) for i in idx)
+            rc, so, se = C.driver(["refvalue"], rinp, timeout=900)
+            rl = [json.loads(l) for l in so.splitlines()]
+            nrv = 0
+            if rc == 0 and len(rl) == len(idx):
+                for i, v, rv in zip(idx, vals, rl):
+                    v = B.norm(v)
+                    if v is None or v[1][0] is None or rv.get("panic"):
+                        continue
+                    nrv += 1
+                    want = S.dec_z(v[1][0][1])
+                    mvc = sorted((tuple(m[0][:2]), S.dec_z(m[1])) for m in v[1][1])
+                    mvr = sorted((tuple(m[0][:2]), m[1]) for m in rv["moves"])
+                    if rv["vroot"] != want or [x[1] for x in mvc] != [x[1] for x in mvr]:
+                        rp = C.write_replay(prop, {"broken": "the driver's reference negamax disagrees with the Coq value V", "case": r["cases"][i],
+                                                   "coq": [want, mvc[:6]], "driver": [rv["vroot"], mvr[:6]]})
+                        violations.append({"replay": rp, "no_input": True})
+                        break
+            cov["driver_reference_validated_against_coq"] = nrv
+    # ---- deep leg: depths the Coq evaluation cannot afford.  Engine (cache off) vs the driver's reference at depth 5-6 on sparse
+    # heavy-piece positions (long forcing lines, check extensions far from the root); the alpha-beta form of the reference is
+    # cross-checked against the plain recursion at depth 3 on the same positions
+    deep_pos = ["8/8/2Q5/5k2/2q5/7Q/8/3K4 b - - 0 1", "8/8/8/4k3/8/2Q5/1R6/K7 w - - 0 1", "6k1/5ppp/8/8/8/8/5PPP/R5K1 w - - 0 1",
+                "3r2k1/5ppp/8/8/8/8/5PPP/3RR1K1 w - - 0 1", "8/5k2/8/8/8/2q5/Q7/1K6 b - - 0 1", "7k/6pp/8/8/8/8/1Q4PP/6RK w - - 0 1",
+                "k7/8/1K6/8/8/8/8/1R5q w - - 0 1", "8/8/8/8/5k2/8/4Q1K1/7r w - - 0 1", "4r1k1/5ppp/8/8/8/8/Q4PPP/6K1 w - - 0 1",
+                "8/1k6/8/8/8/8/1Q2R3/K6q b - - 0 1", "2q3k1/6pp/8/8/8/8/5PPP/1Q3RK1 w - - 0 1", "r5k1/5ppp/8/8/8/8/R4PPP/R5K1 b - - 0 1"]
+    deep_pos += [f for _, f in P.material_families(ctx["seed"] % 3, 1) if any(c in f.split()[0] for c in "QqRr")][:10]
+    dd = 6 if ctx["tier"] == "quick" else 7
+    import subprocess
+    from concurrent.futures import ThreadPoolExecutor
+
+    def ref(arg):
+        fen, dtxt = arg
+        try:
+            pr = subprocess.run([C.ENGINE, "verif", "refvalue"], input="%s |  | %s\n" % (fen, dtxt), capture_output=True, text=True, timeout=75 if ctx["tier"] == "quick" else 900)
+            return json.loads(pr.stdout.splitlines()[0])
+        except Exception:
+            return None
+    with ThreadPoolExecutor(max_workers=C.NPROC) as ex:
+        ref_deep = list(ex.map(ref, [(f, "%da" % dd) for f in deep_pos]))
+        ref_ab3 = list(ex.map(ref, [(f, "3a") for f in deep_pos]))
+        ref_pl3 = list(ex.map(ref, [(f, "3") for f in deep_pos]))
+    for f, a3, p3 in zip(deep_pos, ref_ab3, ref_pl3):
+        if a3 is None or p3 is None or a3 != p3:
+            rp = C.write_replay(prop, {"broken": "the alpha-beta form of the driver's reference disagrees with the plain recursion at depth 3", "fen": f,
+                                       "alpha_beta": a3, "plain": p3})
+            violations.append({"replay": rp, "no_input": True})
+            break
+    dcases = [{"group": "deep", "fen": f, "moves": [], "specs": ["d%dx" % dd]} for f in deep_pos]
+    deng = S.run_engine(dcases)
+    ndeep = 0
+    for f, rv, e in zip(deep_pos, ref_deep, deng):
+        er = e["results"][0] if e["results"] else None
+        if rv is None or rv.get("panic") or rv.get("vroot") is None or er is None:
+            continue            # reference too slow for this position within the time allowed (or no legal move): not judged
+        ndeep += 1
+        mv = {tuple(m[0][:2]) + (m[0][4],): m[1] for m in rv["moves"]}
+        problems = []
+        if er.get("panic"):
+            problems.append("engine panic")
+        else:
+            if er["score"] != rv["vroot"]:
+                problems.append("root score %s but negamax value %s" % (er["score"], rv["vroot"]))
+            if er["best"] is not None and mv.get((er["best"][0], er["best"][1], er["best"][4])) != rv["vroot"]:
+                problems.append("chosen move %s has value %s, position value %s" % (er["best"], mv.get((er["best"][0], er["best"][1], er["best"][4])), rv["vroot"]))
+        if problems:
+            rp = C.write_replay(prop, {"kind": "engine result at depth %d (cache off) differs from the exact negamax value of its look-ahead game (driver reference)" % dd,
+                                       "fen": f, "problems": problems,
+                                       "replay_cmd": "printf '%s |  | d%dx\\n' | %s verif search | grep RESULT | cut -c1-200; printf '%s |  | %da\\n' | %s verif refvalue | cut -c1-300" % (
+                                           f, dd, C.ENGINE, f, dd, C.ENGINE)})
+            violations.append({"replay": rp})
+    cov["deep_reference_positions_judged"] = ndeep
+    cov["deep_reference_depth"] = dd
     cov["rule"] = ("20 positions (start, openings after moves, endgames, mates, stalemate, promotion, en passant, "
                    "repetition history, fifty-move edge) x depths 1..3(4) with the cache switched off by the guarded hook: "
-                   "engine root move/score vs the Coq model; and vs the reference negamax V evaluated in Coq")
+                   "engine root move/score vs the Coq model; and vs the reference negamax V evaluated in Coq; all small material signatures at depth 2; "
+                   "deep leg: engine at depth 6 (7 in thorough) with the cache off vs a reference negamax written in the driver over the engine's board API "
+                   "(validated against the Coq value at small depth on every run) on sparse heavy-piece positions")
     return SP.finish(prop, gate, violations, cov)
 
 
